@@ -313,13 +313,13 @@ Section WalkP.
   Let excl := map render ecs.
   Let E := string_excluded ecs.
 
-  (* what dirs.remove(first marker directory) leaves *)
-  Fixpoint rm_first_marker (ds : list tree) : list tree :=
+  (* what dirs[:] = [d for d in dirs if d not in self.marker_files] leaves *)
+  Fixpoint rm_markers (ds : list tree) : list tree :=
     match ds with
     | [] => []
-    | d :: r => if is_marker markers (tname d) then r else d :: rm_first_marker r
+    | d :: r => if is_marker markers (tname d) then rm_markers r else d :: rm_markers r
     end.
-  Definition after_marker (skip : bool) (ds : list tree) := if skip then rm_first_marker ds else ds.
+  Definition after_marker (skip : bool) (ds : list tree) := if skip then rm_markers ds else ds.
   Definition after_tests (valid : bool) (ds : list tree) :=
     filter (fun d => negb (valid && is_test_dir (tname d))) ds.
   Definition descend (path : string) (d : tree) : list entry :=
@@ -340,16 +340,16 @@ Section WalkP.
     generalize (negb (is_special (basename path) || str_excluded excl path) && has_marker_dir markers subs).
     induction subs as [|d r IH]; intros skip.
     - destruct skip; reflexivity.
-    - destruct skip; cbn [andb after_marker rm_first_marker].
+    - destruct skip; cbn [andb after_marker rm_markers].
       + destruct (is_marker markers (tname d)) eqn:Em.
-        * rewrite IH. reflexivity.
+        * rewrite (IH true). reflexivity.
         * cbn [after_tests filter]. rewrite (IH true). cbn [after_marker].
           destruct (has_project files && is_test_dir (tname d)); cbn [negb flat_map app]; reflexivity.
       + cbn [after_tests filter]. rewrite (IH false). cbn [after_marker].
         destruct (has_project files && is_test_dir (tname d)); cbn [negb flat_map app]; reflexivity.
   Qed.
 
-  Lemma rm_first_marker_incl ds d : In d (rm_first_marker ds) -> In d ds.
+  Lemma rm_markers_incl ds d : In d (rm_markers ds) -> In d ds.
   Proof.
     induction ds as [|c r IH]; cbn; [auto|].
     destruct (is_marker markers (tname c)); cbn; intuition.
@@ -460,7 +460,7 @@ Section WalkP.
     pose proof (wf_children _ _ _ Hwf) as Hwfs. destruct Hwf as [Hnd [Hnames _]].
     eapply admitted_sound; [exact Hnd| |  |exact Hin].
     - intros d Hd. unfold after_marker in Hd.
-      destruct (negb _ && _); [apply rm_first_marker_incl|]; exact Hd.
+      destruct (negb _ && _); [apply rm_markers_incl|]; exact Hd.
     - rewrite Forall_forall in *. intros c Hc cs' p'. apply child_exact; auto.
   Qed.
 
@@ -490,12 +490,12 @@ Section WalkP.
       Dir n f (after_marker (negb (is_special (basename (render bc)) || E bc) && has_marker_dir markers subs) subs)
     end.
 
-  Lemma rm_first_marker_nodup ds : NoDup (map tname ds) -> NoDup (map tname (rm_first_marker ds)).
+  Lemma rm_markers_nodup ds : NoDup (map tname ds) -> NoDup (map tname (rm_markers ds)).
   Proof.
     induction ds as [|d r IH]; cbn; [auto|]. intros H. inversion H as [|? ? Hn Hr]; subst.
-    destruct (is_marker markers (tname d)); [exact Hr|]. cbn. constructor; [|apply IH; exact Hr].
+    destruct (is_marker markers (tname d)); [apply IH; exact Hr|]. cbn. constructor; [|apply IH; exact Hr].
     intros Hin. apply Hn. apply in_map_iff in Hin as [c [Hc1 Hc2]]. apply in_map_iff. exists c.
-    split; [exact Hc1|apply rm_first_marker_incl; exact Hc2].
+    split; [exact Hc1|apply rm_markers_incl; exact Hc2].
   Qed.
 
   Lemma root_general t bc p : wf t ->
@@ -507,9 +507,9 @@ Section WalkP.
     set (L := after_marker _ subs).
     pose proof (wf_children _ _ _ Hwf) as Hwfs. destruct Hwf as [Hnd [Hnames _]].
     assert (HL : forall d, In d L -> In d subs).
-    { intros d Hd. unfold L, after_marker in Hd. destruct (negb _ && _); [apply rm_first_marker_incl|]; exact Hd. }
+    { intros d Hd. unfold L, after_marker in Hd. destruct (negb _ && _); [apply rm_markers_incl|]; exact Hd. }
     assert (HndL : NoDup (map tname L)).
-    { unfold L, after_marker. destruct (negb _ && _); [apply rm_first_marker_nodup|]; exact Hnd. }
+    { unfold L, after_marker. destruct (negb _ && _); [apply rm_markers_nodup|]; exact Hnd. }
     rewrite Forall_forall in Hwfs, Hnames. split.
     - intros Hin. eapply admitted_sound with (subs := L) (L := L); [exact HndL|auto| |exact Hin].
       apply Forall_forall. intros c Hc cs' p'. apply child_exact; auto.
@@ -713,14 +713,50 @@ Section Headline.
     specialize (Hs []). cbn in Hs. apply Hs.
   Qed.
 
-  Theorem discover_order_free_partial bc t t' p :
-    wf t -> wf t' -> same_tree t t' -> root_guard ecs markers bc t = true ->
+  Lemma find_child_rm_markers x subs :
+    find_child x (rm_markers markers subs) = if is_marker markers x then None else find_child x subs.
+  Proof.
+    induction subs as [|d r IH]; cbn [rm_markers find_child]; [destruct (is_marker markers x); reflexivity|].
+    destruct (is_marker markers (tname d)) eqn:Em.
+    - rewrite IH. destruct (String.eqb_spec x (tname d)) as [->|_]; [rewrite Em|]; reflexivity.
+    - cbn [find_child]. destruct (String.eqb_spec x (tname d)) as [->|_]; [rewrite Em; reflexivity|exact IH].
+  Qed.
+
+  Lemma names_rm_markers subs n :
+    In n (map tname (rm_markers markers subs)) <-> In n (map tname subs) /\ is_marker markers n = false.
+  Proof.
+    induction subs as [|d r IH]; cbn [rm_markers map In]; [tauto|].
+    destruct (is_marker markers (tname d)) eqn:Em.
+    - rewrite IH. split; [tauto|]. intros [[<-|H] Hm]; [congruence|tauto].
+    - cbn [map In]. rewrite IH. split.
+      + intros [<-|[H Hm]]; auto.
+      + intros [[<-|H] Hm]; auto.
+  Qed.
+
+  Lemma same_tree_root_listing bc t t' : same_tree t t' ->
+    same_tree (root_listing ecs markers bc t) (root_listing ecs markers bc t').
+  Proof.
+    intros Hs. destruct t as [n f subs], t' as [n' f' subs']. cbn [root_listing].
+    assert (Hm : has_marker_dir markers subs = has_marker_dir markers subs').
+    { unfold has_marker_dir. rewrite <- !(existsb_map' tname (is_marker markers)). apply existsb_ext_in.
+      specialize (Hs []). cbn in Hs. apply Hs. }
+    rewrite <- Hm. destruct (negb _ && has_marker_dir markers subs); cbn [after_marker]; [|exact Hs].
+    intros rel. destruct rel as [|x r].
+    - specialize (Hs []). cbn [subdir tfiles tsubs] in *. destruct Hs as [Hf Hn]. split; [exact Hf|].
+      intros m. rewrite !names_rm_markers. rewrite (Hn m). reflexivity.
+    - specialize (Hs (x :: r)). cbn [subdir tsubs] in *. rewrite !find_child_rm_markers.
+      destruct (is_marker markers x); [exact I|exact Hs].
+  Qed.
+
+  (* two listings of the same tree give the same set -- no guard *)
+  Theorem discover_order_free bc t t' p :
+    wf t -> wf t' -> same_tree t t' ->
     (In p (walk_paths (render bc) t (map render ecs) user) <->
      In p (walk_paths (render bc) t' (map render ecs) user)).
   Proof.
-    intros Hwf Hwf' Hs Hg.
-    assert (Hg' : root_guard ecs markers bc t' = true) by (rewrite <- (root_guard_same_tree bc t t' Hs); exact Hg).
-    rewrite (discover_exact_string bc t p Hwf Hg), (discover_exact_string bc t' p Hwf' Hg').
+    intros Hwf Hwf' Hs.
+    rewrite (discover_exact_general bc t p Hwf), (discover_exact_general bc t' p Hwf').
+    pose proof (same_tree_root_listing bc t t' Hs) as Hs'.
     split; intros [rel [Hp Hr]]; exists rel; (split; [exact Hp|]).
     - eapply is_root_same_tree; eassumption.
     - eapply is_root_same_tree; [apply same_tree_sym|]; eassumption.
@@ -730,13 +766,13 @@ End Headline.
 (* ---- the two analysis passes -------------------------------------------------------------- *)
 Section CollectP.
   Variable analyse : string -> outcome.
-  Notation bad := (fun e : entry => is_crash analyse e || is_exit analyse e).
+  Notation bad := (is_crash analyse).
   Definition ok_paths (l : list entry) : list string := map fst (filter (is_ok analyse) l).
 
   Lemma adds_spec l : adds analyse l = if existsb bad l then None else Some (ok_paths l).
   Proof.
     induction l as [|e l IH]; [reflexivity|].
-    cbn [adds existsb]. unfold ok_paths, is_crash, is_exit, is_ok in *. cbn [filter].
+    cbn [adds existsb]. unfold ok_paths, is_crash, is_ok in *. cbn [filter].
     destruct (analyse (fst e)) eqn:Ea; cbn [orb]; rewrite ?IH; try reflexivity;
       destruct (existsb _ l); reflexivity.
   Qed.
@@ -758,74 +794,48 @@ Section CollectP.
   Lemma perm_ok_paths l l' : Permutation l l' -> Permutation (ok_paths l) (ok_paths l').
   Proof. intros H. unfold ok_paths. apply Permutation_map. apply perm_filter. exact H. Qed.
 
-  (* what collect computes, as a function of the two sub-lists it works on *)
-  Definition outcome_of (threaded : bool) (first later : list entry) : collected :=
-    if existsb (is_crash analyse) first then Raised
-    else if existsb (is_exit analyse) first then (if threaded then Hangs else Raised)
+  (* what collect computes, as a function of the two sub-lists it works on; the same
+     whether the first pass runs in the pool or not *)
+  Definition outcome_of (first later : list entry) : collected :=
+    if existsb bad first then Raised
     else if existsb bad later then Raised
     else Offered (ok_paths first ++ ok_paths later).
 
-  Lemma existsb_bad_split l : existsb bad l = existsb (is_crash analyse) l || existsb (is_exit analyse) l.
-  Proof.
-    induction l as [|e l IH]; [reflexivity|]. cbn [existsb]. rewrite IH.
-    destruct (is_crash analyse e), (is_exit analyse e), (existsb (is_crash analyse) l); reflexivity.
-  Qed.
-
   Lemma collect_spec threaded sigma tau :
     collect analyse threaded sigma tau =
-    outcome_of threaded (filter (fun e => negb (deferred e)) tau) (filter deferred sigma).
+    outcome_of (filter (fun e => negb (deferred e)) tau) (filter deferred sigma).
   Proof.
     unfold collect, outcome_of. rewrite gen_pass1_defers, gen_pass2_analyses.
     set (first := filter (fun e => negb (deferred e)) tau). set (later := filter deferred sigma).
     destruct threaded.
     - unfold adds_threaded. fold (ok_paths first).
-      destruct (existsb (is_crash analyse) first); [reflexivity|].
-      destruct (existsb (is_exit analyse) first); [reflexivity|].
+      destruct (existsb bad first); [reflexivity|].
       rewrite adds_spec. destruct later as [|e l]; [cbn; rewrite app_nil_r; reflexivity|].
       destruct (existsb bad (e :: l)); reflexivity.
-    - rewrite adds_spec, existsb_bad_split.
-      destruct (existsb (is_crash analyse) first); [reflexivity|].
-      destruct (existsb (is_exit analyse) first); [reflexivity|]. cbn [orb].
+    - rewrite adds_spec.
+      destruct (existsb bad first); [reflexivity|].
       rewrite adds_spec. destruct later as [|e l]; [cbn; rewrite app_nil_r; reflexivity|].
       destruct (existsb bad (e :: l)); reflexivity.
   Qed.
 
-  (* Full statement (FALSE of the code, see exit_hang_refuted): every schedule, threaded or
-     not, gives the sequential result. *)
-  Definition schedule_free_full_statement : Prop :=
-    forall ds sigma tau threaded, Permutation sigma ds -> Permutation tau ds ->
-      match sequential analyse ds, collect analyse threaded sigma tau with
-      | Offered a, Offered b => Permutation a b
-      | Raised, Raised => True
-      | _, _ => False
-      end.
-
-  (* proved: for every execution order sigma and every delivery order tau of the same
-     walked directories, threaded or not, the constructor raises iff the sequential one
-     does and otherwise offers the same directories, each exactly as often -- provided no
-     first-pass analysis dies with a BaseException (SystemExit) *)
+  (* for every execution order sigma and every delivery order tau of the same walked
+     directories, threaded or not, the constructor raises iff the sequential one does and
+     otherwise offers the same directories, each exactly as often.  No guard (before the
+     SystemExit repair a first-pass analysis ending in SystemExit hung the threaded run). *)
   Theorem schedule_free ds sigma tau threaded :
     Permutation sigma ds -> Permutation tau ds ->
-    (forall e, In e ds -> deferred e = false -> analyse (fst e) <> AExit) ->
     match sequential analyse ds, collect analyse threaded sigma tau with
     | Offered a, Offered b => Permutation a b
     | Raised, Raised => True
     | _, _ => False
     end.
   Proof.
-    intros Hs Ht Hexit. unfold sequential. rewrite !collect_spec. unfold outcome_of.
+    intros Hs Ht. unfold sequential. rewrite !collect_spec. unfold outcome_of.
     set (nd := fun e => negb (deferred e)).
     assert (P1 : Permutation (filter nd tau) (filter nd ds)) by (apply perm_filter; exact Ht).
     assert (P2 : Permutation (filter deferred sigma) (filter deferred ds)) by (apply perm_filter; exact Hs).
-    rewrite (perm_existsb (is_crash analyse) _ _ P1), (perm_existsb (is_exit analyse) _ _ P1),
-            (perm_existsb bad _ _ P2).
-    assert (Hne : existsb (is_exit analyse) (filter nd ds) = false).
-    { destruct (existsb (is_exit analyse) (filter nd ds)) eqn:Ex; [|reflexivity].
-      apply existsb_exists in Ex as [e [He Hx]]. apply filter_In in He as [He Hd].
-      unfold nd in Hd. apply negb_true_iff in Hd. exfalso. apply (Hexit e He Hd).
-      unfold is_exit in Hx. destruct (analyse (fst e)); try discriminate. reflexivity. }
-    rewrite Hne.
-    destruct (existsb (is_crash analyse) (filter nd ds)); [exact I|].
+    rewrite (perm_existsb bad _ _ P1), (perm_existsb bad _ _ P2).
+    destruct (existsb bad (filter nd ds)); [exact I|].
     destruct (existsb bad (filter deferred ds)); [exact I|].
     apply Permutation_app; apply Permutation_sym; apply perm_ok_paths; assumption.
   Qed.
@@ -835,8 +845,7 @@ Section CollectP.
     forall p, In p l <-> exists e, In e ds /\ fst e = p /\ analyse p = AOk.
   Proof.
     unfold sequential. rewrite collect_spec. unfold outcome_of.
-    destruct (existsb (is_crash analyse) _); [discriminate|].
-    destruct (existsb (is_exit analyse) _); [discriminate|].
+    destruct (existsb bad _); [discriminate|].
     destruct (existsb bad _); [discriminate|]. intros [= <-] p.
     rewrite in_app_iff. unfold ok_paths. rewrite !in_map_iff. split.
     - intros [[e [<- He]]|[e [<- He]]]; apply filter_In in He as [He Hok];
@@ -854,21 +863,36 @@ Section CollectP.
     - intros H.
       destruct (existsb bad (filter (fun e => negb (deferred e)) ds)) eqn:E1.
       + apply existsb_exists in E1 as [e [He Hb]]. apply filter_In in He as [He _]. exists e. auto.
-      + destruct (existsb bad (filter deferred ds)) eqn:E2.
-        * apply existsb_exists in E2 as [e [He Hb]]. apply filter_In in He as [He _]. exists e. auto.
-        * rewrite existsb_bad_split in E1. apply orb_false_iff in E1 as [E1a E1b].
-          rewrite E1a, E1b in H. discriminate.
+      + destruct (existsb bad (filter deferred ds)) eqn:E2; [|discriminate].
+        apply existsb_exists in E2 as [e [He Hb]]. apply filter_In in He as [He _]. exists e. auto.
     - intros [e [He Hb]].
       destruct (deferred e) eqn:Ed.
       + assert (existsb bad (filter deferred ds) = true) as ->.
         { apply existsb_exists. exists e. split; [apply filter_In; auto|exact Hb]. }
-        destruct (existsb (is_crash analyse) _); [reflexivity|]. destruct (existsb (is_exit analyse) _); reflexivity.
-      + assert (existsb bad (filter (fun e => negb (deferred e)) ds) = true) as Hx.
+        destruct (existsb bad _); reflexivity.
+      + assert (existsb bad (filter (fun e => negb (deferred e)) ds) = true) as ->.
         { apply existsb_exists. exists e. split; [apply filter_In; split; [exact He|rewrite Ed; reflexivity]|exact Hb]. }
-        rewrite existsb_bad_split in Hx.
-        destruct (existsb (is_crash analyse) _); [reflexivity|]. cbn in Hx. rewrite Hx. reflexivity.
+        reflexivity.
   Qed.
 End CollectP.
+
+(* a project whose analysis ends in SystemExit is a project that fails to analyse: nothing
+   else is disturbed, under any schedule *)
+Theorem exit_is_failed_project analyse threaded sigma tau :
+  collect analyse threaded sigma tau =
+  collect (fun p => match analyse p with AExit => AFail | o => o end) threaded sigma tau.
+Proof.
+  rewrite !collect_spec. unfold outcome_of, ok_paths.
+  assert (Hc : forall l, existsb (is_crash analyse) l =
+                         existsb (is_crash (fun p => match analyse p with AExit => AFail | o => o end)) l).
+  { intros l. induction l as [|e l IH]; [reflexivity|]. cbn [existsb]. rewrite IH. f_equal.
+    unfold is_crash. destruct (analyse (fst e)); reflexivity. }
+  assert (Ho : forall l, filter (is_ok analyse) l =
+                         filter (is_ok (fun p => match analyse p with AExit => AFail | o => o end)) l).
+  { intros l. induction l as [|e l IH]; [reflexivity|]. cbn [filter]. rewrite IH.
+    unfold is_ok. destruct (analyse (fst e)); reflexivity. }
+  rewrite <- !Hc, <- !Ho. reflexivity.
+Qed.
 
 (* ---- SourceRepository(...).get_candidates(None) as a whole ---------------------------------- *)
 Theorem offered_exact_partial ecs user bc t analyse l :
@@ -896,11 +920,6 @@ Definition discover_exact_full_statement : Prop :=
     (In p (walk_paths (render bc) t (map render ecs) user) <->
      exists rel, p = render (bc ++ rel) /\ is_root (comp_excluded ecs) (all_markers user) bc t rel).
 
-Definition discover_order_free_full_statement : Prop :=
-  forall ecs user bc t t' p, wf t -> wf t' -> same_tree t t' ->
-    (In p (walk_paths (render bc) t (map render ecs) user) <->
-     In p (walk_paths (render bc) t' (map render ecs) user)).
-
 (* /B/r with two projects excl and excl2; excluding /B/r/excl keeps the sibling excl2
    (before ca4e69e the character-prefix test lost it: the witness of the former
    prefix_sibling_refuted, corpus/C18/prefix-sibling.json) *)
@@ -917,31 +936,28 @@ Proof.
   - split; repeat constructor; cbn; intuition discriminate.
 Qed.
 
-(* /B/r with marker names MARK and SKIP, both directories of the root: the walk removes
-   only the FIRST marker directory it meets, so the answer depends on the listing order *)
+(* /B/r with marker names MARK and SKIP, both directories of the root, in the two listing
+   orders: every marker-named directory of the root is taken out, so both listings give the
+   same (empty) answer (before the repair only the first one listed was removed: the witness
+   of the former root_marker_dirs_order_refuted, corpus/C18/root-marker-dirs.json) *)
 Definition w_mark1 : tree :=
   Dir "r" [] [Dir "MARK" [] [Dir "p" ["setup.cfg"] []]; Dir "SKIP" [] [Dir "q" ["setup.cfg"] []]].
 Definition w_mark2 : tree :=
   Dir "r" [] [Dir "SKIP" [] [Dir "q" ["setup.cfg"] []]; Dir "MARK" [] [Dir "p" ["setup.cfg"] []]].
 
-Theorem root_marker_dirs_order_refuted :
-  exists user bc t t' p,
-    wf t /\ wf t' /\ same_tree t t' /\
-    In p (walk_paths (render bc) t (map render []) user) /\
-    ~ In p (walk_paths (render bc) t' (map render []) user).
+Example root_marker_dirs_same_answer :
+  same_tree w_mark1 w_mark2 /\
+  walk_paths "/B/r" w_mark1 [] ["MARK"; "SKIP"] = [] /\
+  walk_paths "/B/r" w_mark2 [] ["MARK"; "SKIP"] = [].
 Proof.
-  exists ["MARK"; "SKIP"], ["B"; "r"], w_mark1, w_mark2, "/B/r/SKIP/q".
-  split; [|split; [|split; [|split]]].
-  - cbn. repeat split; repeat constructor; cbn; intuition discriminate.
-  - cbn. repeat split; repeat constructor; cbn; intuition discriminate.
-  - apply perm_same_tree; [|apply Permutation_refl|apply perm_swap].
-    cbn. repeat constructor; cbn; intuition discriminate.
-  - vm_compute. auto.
-  - vm_compute. intuition discriminate.
+  split; [|split; reflexivity].
+  apply perm_same_tree; [|apply Permutation_refl|apply perm_swap].
+  cbn. repeat constructor; cbn; intuition discriminate.
 Qed.
 
 (* the same tree refutes exactness outside root_guard: MARK/p is a project root by path
-   components (the root is exempt from the marker rule) but MARK, listed first, is taken out *)
+   components (the root is exempt from the marker rule, nothing disqualifies MARK itself)
+   but marker-named directories of the root are never entered *)
 Theorem root_marker_dir_lost_refuted :
   exists ecs user bc t rel,
     wf t /\ good_paths ecs bc /\ root_guard ecs (all_markers user) bc t = false /\
@@ -962,27 +978,6 @@ Lemma discover_exact_full_refuted : ~ discover_exact_full_statement.
 Proof.
   intros H. destruct root_marker_dir_lost_refuted as [ecs [user [bc [t [rel [Hwf [Hgp [_ [Hr Hn]]]]]]]]].
   apply Hn. apply (H ecs user bc t _ Hwf Hgp). exists rel. auto.
-Qed.
-
-Lemma discover_order_free_full_refuted : ~ discover_order_free_full_statement.
-Proof.
-  intros H. destruct root_marker_dirs_order_refuted as [user [bc [t [t' [p [W1 [W2 [Hs [Hi Hn]]]]]]]]].
-  apply Hn. apply (H [] user bc t t' p W1 W2 Hs). exact Hi.
-Qed.
-
-(* a first-pass (no setup.py) project whose analysis raises SystemExit: the sequential
-   constructor raises, the threaded one waits for ever *)
-Theorem exit_hang_refuted :
-  exists analyse ds, sequential analyse ds = Raised /\ collect analyse true ds ds = Hangs.
-Proof.
-  exists (fun _ => AExit), [("/B/r", ["pyproject.toml"])]. split; reflexivity.
-Qed.
-
-Lemma schedule_free_full_refuted : exists analyse, ~ schedule_free_full_statement analyse.
-Proof.
-  destruct exit_hang_refuted as [analyse [ds [H1 H2]]]. exists analyse. intros H.
-  specialize (H ds ds ds true (Permutation_refl _) (Permutation_refl _)).
-  rewrite H1, H2 in H. exact H.
 Qed.
 
 (* ---- the hypotheses of the implications are satisfiable by non-trivial values ---------------- *)
@@ -1089,14 +1084,14 @@ Proof.
     split; [eapply same_tree_trans; eassumption|]. split; [exact W3|congruence].
 Qed.
 
-(* permuted listings, at any depth, give the same set (inside root_guard) *)
-Theorem discover_perm_free_partial ecs user bc t t' p :
-  wf t -> tperm t t' -> root_guard ecs (all_markers user) bc t = true ->
+(* permuted listings, at any depth, give the same set *)
+Theorem discover_perm_free ecs user bc t t' p :
+  wf t -> tperm t t' ->
   (In p (walk_paths (render bc) t (map render ecs) user) <->
    In p (walk_paths (render bc) t' (map render ecs) user)).
 Proof.
-  intros Hwf Hp Hg. destruct (tperm_same_tree t t' Hp Hwf) as [Hs [Hwf' _]].
-  apply discover_order_free_partial; assumption.
+  intros Hwf Hp. destruct (tperm_same_tree t t' Hp Hwf) as [Hs [Hwf' _]].
+  apply discover_order_free; assumption.
 Qed.
 
 Example ex_tperm :
